@@ -507,6 +507,10 @@ func c17Rotation(t *testing.T, rep *Report) {
 							}
 							rep.Transitions += 2
 							payload := []byte(fmt.Sprintf("rot-%d-%d", i, j))
+							if (i+j)%2 == 1 {
+								// a message of more than 1 KiB (larger buffers may take another decryption path)
+								payload = append(payload, payloadOf(1200-len(payload), false)...)
+							}
 							// packet path
 							before := nodes[j].D.NumMsgs()
 							nodes[i].T.TakeSent()
@@ -527,6 +531,9 @@ func c17Rotation(t *testing.T, rep *Report) {
 								return c1, nil
 							}
 							payload2 := append([]byte("s-"), payload...)
+							if (i+j)%2 == 1 {
+								payload2 = append(payload2, payloadOf(2800, false)...)
+							}
 							err := nodes[i].M.SendReliable(&ml.Node{Name: nodes[j].Name, Addr: ip4(byte(j + 1)), Port: 7946}, payload2)
 							settle()
 							got = nodes[j].D.Msgs
